@@ -12,6 +12,7 @@ CONSTANTS
   RecvApis = {"typed"}
   WriteSizes = {100, 12288}
   StrSizes = {}
+  StrBytesSizes = {}
   ReadSizes = {100, 12288}
   MaxMsgs = 1
   MaxWrites = 3
